@@ -210,7 +210,7 @@ class Gen:
         if self.allow_groups:
             kinds.append(("group", 4 if self.action_scope_bias else 1))
         if self.rich_values:
-            kinds += [("show", 4), ("refshow", 2)]
+            kinds += [("show", 4), ("refshow", 2), ("alias", 2)]
         kinds.append(("abort", 0.4))
         kinds.append(("return", 0.3))
         k = d.weighted([x for x in kinds if x[1] > 0], key, "kind")
@@ -279,6 +279,21 @@ class Gen:
             out.append(self.wait_external((key, "rw")))
             out.append({"k": "send", "ev": self.fresh("M"), "args": {"v": v}})
             return out
+        if k == "alias":
+            # two variables reach the same container (a record inside a structure and a variable for it); after a wait - where
+            # the state may be saved and restored - the container is changed in place through one of them and read through the other
+            rec, cur = "$" + self.fresh("rec"), "$" + self.fresh("cur")
+            shape = d.choice(["dict-in-list", "list-in-dict", "dict-in-dict", "set-in-dict"], key, "ashape")
+            if shape == "dict-in-list":
+                init, path, mut = '{"items": [{"done": 0, "n": 1}], "n": 2}', '%s["items"][0]' % rec, '(%s.update({"done": 1}))' % cur
+            elif shape == "list-in-dict":
+                init, path, mut = '{"items": [1, 2], "n": 2}', '%s["items"]' % rec, "(%s.append(7))" % cur
+            elif shape == "dict-in-dict":
+                init, path, mut = '{"cfg": {"lim": 1}, "n": 2}', '%s["cfg"]' % rec, '(%s.update({"lim": 5}))' % cur
+            else:
+                init, path, mut = '{"tags": {"a"}, "n": 2}', '%s["tags"]' % rec, '(%s.add("z"))' % cur
+            return [{"k": "assign", "var": rec, "expr": init}, {"k": "assign", "var": cur, "expr": path}, self.wait_external((key, "aw")),
+                    {"k": "raw", "text": mut}, {"k": "send", "ev": self.fresh("M"), "args": {"v": rec}}]
         if k == "refshow":
             # references to events / actions kept in variables across a wait
             ref = "$" + self.fresh("e")
